@@ -83,7 +83,7 @@ func isReaderEmpty(reader io.ReaderAt) (bool, error) {
 		return false, errors.New("reader is nil")
 	}
 	buf := make([]byte, 1)
-	_, err := reader.ReadAt(buf, 0)
+	_, err := readFullAt(reader, buf, 0)
 	if err != nil {
 		if errors.Is(err, io.EOF) || errors.Is(err, io.ErrUnexpectedEOF) {
 			return true, nil
@@ -128,7 +128,7 @@ func (r *Reader) Meta() *indexmeta.Meta {
 func readHeaderSize(reader io.ReaderAt) (int64, error) {
 	// read header size:
 	headerSizeBuf := make([]byte, 4)
-	if _, err := reader.ReadAt(headerSizeBuf, 0); err != nil {
+	if _, err := readFullAt(reader, headerSizeBuf, 0); err != nil {
 		return 0, err
 	}
 	headerSize := int64(binary.LittleEndian.Uint32(headerSizeBuf))
@@ -143,7 +143,7 @@ func readHeader(reader io.ReaderAt) (*bucketToOffset, *indexmeta.Meta, int64, er
 	}
 	// read header bytes:
 	headerBuf := make([]byte, headerSize)
-	if _, err := reader.ReadAt(headerBuf, 4); err != nil {
+	if _, err := readFullAt(reader, headerBuf, 4); err != nil {
 		return nil, nil, 0, fmt.Errorf("failed to read header bytes: %w", err)
 	}
 	// decode header:
@@ -206,7 +206,7 @@ func (r *Reader) Has(sig [64]byte) (bool, error) {
 	}
 	// numHashes:
 	numHashesBuf := make([]byte, 4) // TODO: is uint32 enough? That's 4 billion hashes per bucket. RIght now an epoch can have 1 billion signatures.
-	_, err := r.contentReader.ReadAt(numHashesBuf, int64(offset))
+	_, err := readFullAt(r.contentReader, numHashesBuf, int64(offset))
 	if err != nil {
 		return false, err
 	}
@@ -250,9 +250,20 @@ var ErrNotFound = fmt.Errorf("not found")
 
 func readUint64Le(reader io.ReaderAt, pos int64) (uint64, error) {
 	buf := make([]byte, 8)
-	_, err := reader.ReadAt(buf, pos)
+	_, err := readFullAt(reader, buf, pos)
 	if err != nil {
 		return 0, err
 	}
 	return binary.LittleEndian.Uint64(buf), nil
+}
+
+// readFullAt reads exactly len(buf) bytes at off. An io.ReaderAt may return
+// io.EOF together with a full read that ends at the end of the input; that
+// is not an error for the caller.
+func readFullAt(reader io.ReaderAt, buf []byte, off int64) (int, error) {
+	n, err := reader.ReadAt(buf, off)
+	if n == len(buf) && errors.Is(err, io.EOF) {
+		return n, nil
+	}
+	return n, err
 }
